@@ -122,7 +122,7 @@ def check_case(case: dict) -> Result:
     res = Result()
     cfg = case["cfg"]
     R = cfg["R"]
-    continuous = cfg["generator"] in libgames.CONTINUOUS
+    continuous = cfg["generator"] in libgames.CONTINUOUS + ["xs2", "xs3"]
     honours_seed = not libgames.ignores_seed(cfg["generator"])
     base = None
     for p in case["procs"]:
@@ -222,7 +222,9 @@ def cases(draw, all_families: bool, known_keys):
     if all_families and draw(st.booleans()):
         gen = draw(st.sampled_from([x for x in libgames.names() if x not in ("oxs",)]))
     else:
-        gen = draw(st.sampled_from(libgames.CONTINUOUS))
+        # continuous families, among them those that sometimes draw a game whose bounds are tight at minimal information
+        # (additive draws of xs2 / xs3 / xos2): such an episode is 'done' right after reset
+        gen = draw(st.sampled_from(libgames.CONTINUOUS + ["xs2", "xs2", "xs3", "xos2"]))
     n = draw(st.integers(3, 4))
     comp = "superadditive"
     if gen in libgames.SAM_FAMILIES:
